@@ -23,6 +23,12 @@ func init() {
 		Technique: "must-precede over lookup tiers, loop-carried-value (phi) structure of the head/tail walks, writer enumeration of the head pointer with publication idioms, key-constructor table agreement, arithmetic obligations",
 		Trusted:   "go/types+go/ssa; go-datastore, LRU and sync/atomic contracts",
 		Run:       runC04,
+		Imports: []Import{
+			{From: "C06.a", As: "C04.f", Why: "the [Tail, Head] range must be the same after a restart: every flush persists both pointers, the headers and the index in one batch"},
+			{From: "C06.d", Match: "ensure-init", As: "C04.f", Why: "Tail ≤ Head needs both pointers set whenever the store is non-empty, also after a reopen with one pointer absent"},
+			{From: "C08.d", As: "C04.g", Why: "after DeleteRange the pointers must bound exactly the heights still stored: they move only with the deletion progress"},
+			{From: "C08.b", As: "C04.g", Why: "Has/HasAt/Get/GetByHeight agree after a deletion only if every tier (pending, caches, index, datastore) is purged"},
+		},
 	})
 }
 
